@@ -160,6 +160,8 @@ def run(c):
               ("map_slots", "map_maps", False, False, True, 2, 2))
     # (searched over the operations that matter for stale slots: a model of the pinned code may use any subset)
     focus = ["touch", "removeif", "remove", "ensure", "copy", "ecopy"]
+    if c.replay:
+        pinned = ()
     for name, prof, ptr, fs, fu, smin, smax in pinned:
         pp = dict(PROFILES[prof], ops=[o for o in PROFILES[prof]["ops"] if o in focus], initlens=[0, 2, 3] if ptr else [2])
         job(("pinned", name), "PDataImplMC", cfg_text=impl_cfg(pp, ptr, fs, fu, 3, smin, smax), timeout=1500,
@@ -303,13 +305,16 @@ def run(c):
             ro_attempts += tr["readonly_mutators_attempted"]
             bad += tr["mismatched_programs"]
             for m in tr["mismatches"] or []:
-                key = (m["class"], m["op"][0], prof)
+                if m["class"] == "readonly-mutator":     # one finding per mutator, whatever container hosted it
+                    key = (m["class"], " ".join(sorted(set((m.get("got") or "").split()))), "*")
+                else:
+                    key = (m["class"], m["op"][0], kind)
                 g = groups.setdefault(key, dict(types=set(), first=None, n=0))
                 g["types"].add(tname)
                 g["n"] += 1
                 beh = behs[m["beh"]]
                 if g["first"] is None or m["step"] < g["first"][1]["step"]:
-                    g["first"] = (tname, m, beh)
+                    g["first"] = (tname, m, beh, prof)
         nontrivial += sum(1 for b in behs if len(set(s["o"][0] for s in b[1:-1])) >= 2)
         pp = per_profile.setdefault(prof, dict(programs=0, types=len(want_types), mismatched_pairs=0))
         pp["programs"] += len(behs)
@@ -321,14 +326,19 @@ def run(c):
                 c.sample(dict(kind="replayed program (%s, %s)" % (prof, name), program=fmt_prog(b, len(b) - 1),
                               expected_final={k: v for k, v in b[-1]["v"].items()}))
 
-    for (cls, op, prof), g in sorted(groups.items()):
-        tname, m, beh = g["first"]
+    for (cls, op, kind), g in sorted(groups.items()):
+        tname, m, beh, prof = g["first"]
+        if cls == "readonly-mutator":
+            detail = "mutator(s) " + op
+        elif cls == "state":
+            detail = "var %s want %s got %s" % (m.get("var"), (m.get("want") or "")[:300], (m.get("got") or "")[:300])
+        else:
+            detail = m.get("panic") or ""
         what = "%s: %s [%s on %s; %d type(s): %s]; program: %s" % (
-            CLASS_TEXT.get(cls, cls), m.get("panic") or ("var %s want %s got %s" % (m.get("var"), (m.get("want") or "")[:300], (m.get("got") or "")[:300])),
-            op, prof, len(g["types"]), ", ".join(sorted(g["types"])[:4]) + (" ..." if len(g["types"]) > 4 else ""),
-            fmt_prog(beh, m["step"]))
+            CLASS_TEXT.get(cls, cls), detail, m["op"][0], prof, len(g["types"]),
+            ", ".join(sorted(g["types"])[:4]) + (" ..." if len(g["types"]) > 4 else ""), fmt_prog(beh, m["step"]))
         c.violation(what, replay_obj=dict(profile=prof, type=tname, behaviour=beh, step=m["step"], mismatch=m),
-                    signature="C07:%s:%s:%s" % (cls, op, prof))
+                    signature="C07:%s:%s:%s" % (cls, op, kind))
 
     c.traces_validated += total_pairs
     c.evaluations = total_steps
